@@ -282,5 +282,13 @@ def run(ctx, chk):
     r3_roles(ctx, chk)
     r4_before_pruning(ctx, chk)
     C01.r5_flag(ctx, chk, "C04.4:flag")
+    # the strategies are extracted from the values the sweep left behind: they are the value-optimal actions only if the sweep
+    # runs to the threshold over every state that can reach a final state
+    from . import C07
+    C01.r4_sweep(ctx, chk, "C04.pre:C01.4")
+    C01.r3_writers(ctx, chk, "C04.pre:C01.3")
+    C07.r2_roots(ctx, chk, "C04.pre:C07.2")
+    C07.r4_result(ctx, chk, "C04.pre:C07.4", order_matters=False)
+    C07.r35_worklist(ctx, chk, "C04.pre:C07.3", "C04.pre:C07.5")
     chk.require_instances("C04.1", 2)
     chk.require_instances("C04.2", 1)
